@@ -105,6 +105,9 @@ func expectedField(u *e3.Unit, f *protogen.Field) *sym.E {
 			return sym.Guard(p, body)
 		case protoreflect.StringKind, protoreflect.BytesKind:
 			return sym.Guard("len("+p+")>0", body)
+		case protoreflect.FloatKind, protoreflect.DoubleKind:
+			// implicit presence of a float is "bit pattern is not +0": -0.0 is a value and is emitted by the reference
+			return sym.Guard("bits("+p+")!=0", body)
 		default:
 			return sym.Guard(p+"!=0", body)
 		}
@@ -359,8 +362,8 @@ func checkC05(r *core.Result) {
 			}
 			// extensions extending this message
 			if mc.unit.GenFile != nil {
-				for _, m := range allGenMessagesWithMaps(mc.unit.GenFile) {
-					for _, e := range m.Extensions {
+				for _, exts := range extensionGroups(mc.unit.GenFile) {
+					for _, e := range exts {
 						if e.Extendee == nil || e.Extendee.GoIdent != mc.desc.GoIdent {
 							continue
 						}
@@ -377,6 +380,24 @@ func checkC05(r *core.Result) {
 						check("extension "+string(e.Desc.Name()), "xv("+ev+")", "extension "+e.Desc.Kind().String(), want, int64(e.Desc.Number()), kindTable[e.Desc.Kind()].encode, nil)
 					}
 				}
+			}
+			// extendable messages: extensions declared in OTHER files cannot be known when this file is generated
+			// (the Go package of the extendee cannot import the package of the extension), so Size()/MarshalTo()
+			// can only be complete if they also visit the extensions that are set at run time.
+			if mc.desc.Desc.ExtensionRanges().Len() > 0 {
+				generic := false
+				for _, fd := range []*ast.FuncDecl{mc.size, mc.marshalTo} {
+					ast.Inspect(fd.Body, func(n ast.Node) bool {
+						if c, ok := n.(*ast.CallExpr); ok {
+							if fn := staticCallee(info, c); fn != nil && fn.Name() == "RangeExtensions" {
+								generic = true
+							}
+						}
+						return true
+					})
+				}
+				r.GroupOb("V-ext-open", "extendable messages marshal the extensions set at run time, not only those declared in their own file", fmt.Sprintf("%s.%s [%s]", u.File.Pkg, mc.goName, u.Combo.Runtime), mc.pos(ex, mc.marshalTo.Pos()), generic,
+					"Size()/MarshalTo() enumerate only the extensions declared in the same .proto file: an extension declared in another file and set with SetExtension is silently dropped by the generated Marshal")
 			}
 			// anything MarshalTo writes that belongs to no descriptor field
 			for k, terms := range byField {
